@@ -1,12 +1,15 @@
 #!/bin/sh
-# tools/mut.sh <patch.diff> <ID>...   apply a seeded change to /repo, run the named checks, undo it straight afterwards.
-# Development aid only (never registered in MANIFEST.json).
+# tools/mut.sh <patch.diff> <ID>...   apply a seeded change to a scratch worktree of /repo's HEAD, run the named checks
+# against it (VERIF_REPO), and remove the worktree. Evidence goes to a scratch VERIF_DIR so /verif/evidence is untouched.
+# Development aid only (never registered in MANIFEST.json). MUT_TIER=thorough for the thorough tier.
 p="$1"; shift
-git -C /repo apply "$p" || { echo "patch does not apply"; exit 2; }
+wt=/tmp/wt/mut-$$; vd=/tmp/mutv-$$
+git -C /repo worktree add -q --detach $wt HEAD || exit 2
+trap 'git -C /repo worktree remove --force $wt >/dev/null 2>&1; rm -rf $wt $vd' EXIT
+git -C $wt apply "$p" || { echo "patch does not apply"; exit 2; }
+mkdir -p $vd; cp /verif/known_findings.jsonl $vd/
 for id in "$@"; do
-  out=$(/verif/run.sh "$id" quick 2>/tmp/mut.err); code=$?
-  echo "== $id exit=$code"; echo "$out" | grep -E "^(VIOLATION|KNOWN-FINDING)" | cut -c1-220 | head -8
-  grep -E "^(VIOLATED|UNDECIDED)" /tmp/mut.err | cut -c1-400 | head -8
+  out=$(VERIF_DIR=$vd VERIF_REPO=$wt /verif/run.sh "$id" ${MUT_TIER:-quick} 2>$vd/err); code=$?
+  echo "== $id exit=$code"; echo "$out" | grep -E "^(VIOLATION|KNOWN-FINDING)" | cut -c1-200 | head -3
+  grep -E "^(VIOLATED|UNDECIDED)" $vd/err | cut -c1-400 | head -6
 done
-git -C /repo checkout -- .
-git -C /repo status --short | head
